@@ -215,26 +215,38 @@ func runC12(r *Run) {
 		}
 	})
 	isStartReq := func(v ssa.Value) bool { return strings.HasSuffix(a.sh.Of(v).String(), ".startTimerRequests") }
-	isCancelCh := func(v ssa.Value) bool {
-		// the channel the Cancel closure closes: a local chan struct{} that is not the elapsed channel
-		s := a.sh.Of(v).String()
-		return strings.Contains(s, "cancelTimer")
+	isTimerC := func(v ssa.Value) bool {
+		fa, ok := v.(*ssa.UnOp)
+		if !ok {
+			return false
+		}
+		return lastField(fa.X) == "time.Timer.C"
 	}
+	isCtxDone := func(v ssa.Value) bool { return strings.HasPrefix(a.sh.Of(v).String(), "@@context.Context.Done(") }
+	// the running-phase select: blocking, with a start-request case and the time.Timer case; the
+	// cancel channel is its remaining receive case (identified by role, not by the variable's name)
 	found := false
+	var cancelShape string
 	for _, s := range sels {
-		startIdx, cancelIdx := -1, -1
+		startIdx, timerIdx := -1, -1
+		var others []int
 		for i, st := range s.States {
-			if isStartReq(st.Chan) {
+			switch {
+			case isStartReq(st.Chan):
 				startIdx = i
-			}
-			if isCancelCh(st.Chan) {
-				cancelIdx = i
+			case isTimerC(st.Chan):
+				timerIdx = i
+			case isCtxDone(st.Chan):
+			default:
+				others = append(others, i)
 			}
 		}
-		if !s.Blocking || startIdx < 0 || cancelIdx < 0 {
+		if !s.Blocking || startIdx < 0 || timerIdx < 0 || len(others) != 1 {
 			continue
 		}
 		found = true
+		cancelShape = a.sh.Of(s.States[others[0]].Chan).String()
+		isCancelCh := func(v ssa.Value) bool { return a.sh.Of(v).String() == cancelShape }
 		// panics reachable only through the start case
 		n := 0
 		a.Instrs(func(in ssa.Instruction) {
@@ -270,25 +282,25 @@ func runC12(r *Run) {
 		}
 	}
 	if !found {
-		r.Fail("C12.4", "tmstate.StandardRoundTimer.background(running-select)", w.Pos(bg.Pos()), "no select over both the cancel channel and start requests found")
+		r.Fail("C12.4", "tmstate.StandardRoundTimer.background(running-select)", w.Pos(bg.Pos()), "no blocking select over the time.Timer channel, one cancel channel and start requests found")
 	}
-	// C12.5: close(timerElapsed) only in the timer.C case
+	// C12.5: the background goroutine closes a channel only in the case that received from timer.C
+	// (the cancel function's close is in its own closure); so a cancelled timer never reports elapsed
 	nclose := 0
 	for _, c := range a.CallsTo("close") {
-		arg := a.sh.Of(CallArg(c, 0)).String()
-		if !strings.Contains(arg, "timerElapsed") {
-			continue
+		if strings.HasPrefix(a.sh.Of(CallArg(c, 0)).String(), "p0.") {
+			continue // a channel of the timer object itself (goroutine-done signal), never handed out as a timer
 		}
 		nclose++
 		ok := false
 		for _, s := range sels {
 			for i, st := range s.States {
-				if strings.HasSuffix(a.sh.Of(st.Chan).String(), ".C") && selCaseGuard(a, c, s, i) {
+				if isTimerC(st.Chan) && selCaseGuard(a, c, s, i) {
 					ok = true
 				}
 			}
 		}
-		r.Check(ok, "C12.5", fmt.Sprintf("tmstate.StandardRoundTimer.background#close-elapsed%d", nclose), w.InstrPos(c), "the elapsed channel is closed only in the case that received from timer.C (a cancelled timer never reports elapsed)")
+		r.Check(ok, "C12.5", fmt.Sprintf("tmstate.StandardRoundTimer.background#close-elapsed%d", nclose), w.InstrPos(c), "the timer goroutine closes a channel (reports elapsed) only in the case that received from timer.C (a cancelled timer never reports elapsed)")
 	}
 	if nclose == 0 {
 		r.Fail("C12.5", "tmstate.StandardRoundTimer.background#close-elapsed", w.Pos(bg.Pos()), "the elapsed channel is never closed")
